@@ -11,6 +11,18 @@ ERROR_PATHS = ['C04', 'C05', 'C29', 'C18', 'C09', 'C26', 'C03', 'C27', 'C33', 'C
 SEQUENTIAL = ['C32', 'C37', 'C38', 'C39', 'C40', 'C43']
 
 
+def _known():
+    import json, os
+    p = os.path.join(os.path.dirname(os.path.dirname(os.path.abspath(__file__))), 'known_findings.jsonl')
+    out = []
+    if os.path.exists(p):
+        for line in open(p):
+            line = line.strip()
+            if line and not line.startswith('#'):
+                out.append(json.loads(line))
+    return out
+
+
 def _pick(pid, per_harness):
     """evenly spaced plain-mode configurations of another check's quick matrix, per harness"""
     chk = CHECKS.get(pid)
@@ -20,6 +32,10 @@ def _pick(pid, per_harness):
         rs = [r for r in chk['runs']('quick') if isinstance(r, McRun) and r.mode.startswith('plain')]
     except Exception:
         return []
+    # configurations on which the source property has a recorded known finding are that property's business (it
+    # reports them as KNOWN-FINDING); the sanitizer re-runs leave them out
+    kn = [k for k in _known() if k.get('property') == pid and k.get('status') == 'known' and k.get('params')]
+    rs = [r for r in rs if not any(k.get('harness') in (None, r.harness) and all(str(r.params.get(a)) == str(b) for a, b in k['params'].items()) for k in kn)]
     by = {}
     for r in rs:
         by.setdefault((r.bin, r.harness), []).append(r)
@@ -35,21 +51,25 @@ def _pick(pid, per_harness):
 
 def c10_runs(tier):
     runs = []
-    per = 2 if tier == 'quick' else 6
+    # a TSan execution of a pool program costs ~30 ms here (thread creation under TSan), and a process needs a few
+    # seconds before its first counted execution: fewer configurations with room to finish beat many that are cut
+    per = 1 if tier == 'quick' else 4
     for pid in CONCURRENT:
         for r in _pick(pid, per):
             runs.append(McRun(r.bin, r.harness, r.params, bound=min(r.bound, 1 if tier == 'quick' else 2), mode='tsan', opts=r.opts,
-                              budget=12 if tier == 'quick' else 40, tag='.' + pid))
+                              budget=30 if tier == 'quick' else 90, tag='.' + pid))
+            runs[-1].source_pid = pid
     return runs
 
 
 def c11_runs(tier):
     runs = []
-    per = 2 if tier == 'quick' else 6
+    per = 1 if tier == 'quick' else 4
     for pid in ERROR_PATHS:
         for r in _pick(pid, per):
             runs.append(McRun(r.bin, r.harness, r.params, bound=min(r.bound, 1 if tier == 'quick' else 2), mode='asan', opts=r.opts,
-                              budget=12 if tier == 'quick' else 40, tag='.' + pid))
+                              budget=30 if tier == 'quick' else 90, tag='.' + pid))
+            runs[-1].source_pid = pid
     for pid in SEQUENTIAL:
         chk = CHECKS.get(pid)
         if not chk:
@@ -62,14 +82,14 @@ def c11_runs(tier):
 
 reg('C10', level='model_checking', runs=c10_runs, quick_budget_s=420, thorough_budget_s=2400,
     technique='the explored schedules of the concurrent harnesses re-run under ThreadSanitizer, with a scheduler whose hand-offs are invisible to TSan',
-    level_text='Configurations drawn evenly from the quick matrices of every concurrent check (pool submission, task sets, resize/shutdown, loops, futures, pipelines, graphs, latch/event, RW locks, AsyncRequest, ResourcePool, ring buffers, deque, arena, vector growth, allocators, threadId), explored again at bound 1 (thorough: three times as many configurations, bound 2) in a -fsanitize=thread build. The scheduler translation unit is uninstrumented and hands the token over with raw futexes, so the serialisation adds no happens-before edges: TSan reports every pair of conflicting accesses on an explored schedule that dispenso\'s own atomics/locks (with their declared memory orders) do not order. Oracle: zero TSan reports; a report is a violation attributed to a replayable schedule.',
+    level_text='Configurations drawn evenly from the quick matrices of every concurrent check (pool submission, task sets, resize/shutdown, loops, futures, pipelines, graphs, latch/event, RW locks, AsyncRequest, ResourcePool, ring buffers, deque, arena, vector growth, allocators, threadId), explored again at bound 1 (thorough: four configurations per harness, bound 2), each within a per-configuration time budget (the evidence lists the bound each one completed) in a -fsanitize=thread build. The scheduler translation unit is uninstrumented and hands the token over with raw futexes, so the serialisation adds no happens-before edges: TSan reports every pair of conflicting accesses on an explored schedule that dispenso\'s own atomics/locks (with their declared memory orders) do not order. Oracle: zero TSan reports; a report is a violation attributed to a replayable schedule.',
     level_note='"all API usage programs" is bounded to the programs these harnesses generate (listed in the evidence); TSan lock-order-inversion reports are disabled (deadlocks are the explorer\'s job); non-SC reorderings that are not data races are outside this check.',
     design_ref='DESIGN.md section 4, C10', assumptions=MC_ASSUME,
     rule='one evaluation = one complete execution under TSan of a configuration of another check under one schedule; distinct_nontrivial = distinct scheduler states with more than one continuation')
 
 reg('C11', level='model_checking', runs=c11_runs, quick_budget_s=420, thorough_budget_s=2400,
     technique='the explored schedules of the error-path harnesses re-run under ASan+UBSan with a per-execution leak check, plus the ASan+UBSan sequential enumerators',
-    level_text='Configurations drawn evenly from the quick matrices of the checks that exercise cancellation, exceptions, shutdown, teardown and lifetime (C03, C04, C05, C09, C18, C24-C27, C29, C33, C34, C37, C41), explored at bound 1 (thorough: three times as many, bound 2) in an ASan+UBSan build; after every execution the allocator\'s live-byte count is compared with the count before it and any growth is handed to LeakSanitizer; lifetime-tracked payloads must balance. The sequential enumerators of C32/C37/C38/C39/C40/C43 (bounded-exhaustive operation histories) run as ASan+UBSan programs as part of this check. Oracle: no sanitizer report, no leak, balanced lifetimes.',
+    level_text='Configurations drawn evenly from the quick matrices of the checks that exercise cancellation, exceptions, shutdown, teardown and lifetime (C03, C04, C05, C09, C18, C24-C27, C29, C33, C34, C37, C41), explored at bound 1 (thorough: four per harness, bound 2; per-configuration time budgets, completed bounds in the evidence) in an ASan+UBSan build; after every execution the allocator\'s live-byte count is compared with the count before it and any growth is handed to LeakSanitizer; lifetime-tracked payloads must balance. The sequential enumerators of C32/C37/C38/C39/C40/C43 (bounded-exhaustive operation histories) run as ASan+UBSan programs as part of this check. Oracle: no sanitizer report, no leak, balanced lifetimes.',
     level_note='"all programs and inputs" is bounded to what the harnesses and enumerators generate; bad_alloc is not injected.',
     design_ref='DESIGN.md section 4, C11', assumptions=MC_ASSUME,
     rule='one evaluation = one complete execution (or one enumerated history) under ASan+UBSan; distinct_nontrivial = distinct scheduler states / distinct canonical histories')
